@@ -9,9 +9,9 @@ func init() {
 			{Pkg: "daemon", Harness: "daemon", Config: "startfirst,nolate", Weight: 3, Note: "additionally every registration has returned before the first shutdown call: ordering, waiting and re-registration without the registration/shutdown window"},
 		},
 		QuickS: 30, ThoroughS: 900,
-		Rule:   "each run draws 1-5 initial workers (orders from {-2,-1,0,1,1,3,7}; bodies: return on cancel, yield or sleep on the fake clock after the cancel, return on their own after yields or a sleep, wait for their equal-order peers' cancellation), who starts the daemon (main: Start, a task: Start, a task: Run), 0-2 registrar tasks with 1-2 BackgroundWorker calls each (new name or the name of an initial worker, finished or running at that moment), 1-3 Shutdown/ShutdownAndWait callers with drawn delays, optional BackgroundWorker/Start calls after ShutdownAndWait returned, and a schedule; distinct = distinct (configuration, schedule, event log) hash; non-trivial = at least two recorded decisions",
-		Real:   []string{"app/daemon (OrderedDaemon: BackgroundWorker, Start, Run, Shutdown, ShutdownAndWait, worker goroutines, per-order wait groups)", "runtime/syncutils (RWMutex)", "context (real; cancellation is a scheduling point followed by a settle step)"},
-		Stubs:  commonStubs,
+		Rule:  "each run draws 1-5 initial workers (orders from {-2,-1,0,1,1,3,7}; bodies: return on cancel, yield or sleep on the fake clock after the cancel, return on their own after yields or a sleep, wait for their equal-order peers' cancellation), who starts the daemon (main: Start, a task: Start, a task: Run), 0-2 registrar tasks with 1-2 BackgroundWorker calls each (new name or the name of an initial worker, finished or running at that moment), 1-3 Shutdown/ShutdownAndWait callers with drawn delays, optional BackgroundWorker/Start calls after ShutdownAndWait returned, and a schedule; distinct = distinct (configuration, schedule, event log) hash; non-trivial = at least two recorded decisions",
+		Real:  []string{"app/daemon (OrderedDaemon: BackgroundWorker, Start, Run, Shutdown, ShutdownAndWait, worker goroutines, per-order wait groups)", "runtime/syncutils (RWMutex)", "context (real; cancellation is a scheduling point followed by a settle step)"},
+		Stubs: commonStubs,
 		Assume: []string{
 			"one task executes at a time; context switches only at sync/atomic/channel/select/go/context-cancel operations and at the explicit points inside worker bodies",
 			"a worker has 'returned' when its handler reaches its last statement; its context counts as cancelled from the first event (any worker's start/cancel/return, ShutdownAndWait return, quiescence) at which ctx.Err() is non-nil while its body runs, or when its own <-ctx.Done() returns",
